@@ -278,6 +278,56 @@ def concH : Handler := fun inp impl => do
   return ({ model := Json.mkObj [("foreign", 0)], agree := rs.all (·.1) && foreign == 0, spec := rs.all (·.2) && foreign == 0,
             nontrivial := t.code ≠ 0 && getI inp "g" ≥ 2, tag := formTag t } : Verdict).toJson
 
+/-! ### c13.sequence: consecutive requests on one shared target -/
+
+def seqH : Handler := fun inp impl => do
+  let err := (impl.getObjValAs? String "err").toOption.getD ""
+  if err != "" then
+    return ({ model := Json.null, agree := true, spec := true, nontrivial := false, tag := "harness-" ++ err } : Verdict).toJson
+  let t ← targetOf (getO impl "t")
+  if t.code == 0 || getB (getO impl "t") "odd" || (tmplParts t).1.isEmpty then
+    return ({ model := Json.null, agree := true, spec := true, nontrivial := false, tag := "not-a-redirect-or-odd" } : Verdict).toJson
+  let reqs := match getO inp "reqs" with | .arr a => a.toList | _ => []
+  let answ := match getO impl "answers" with | .arr a => a.toList | _ => []
+  -- answer k is judged against request k alone
+  let judge (rq : Json) (a : Json) : Bool × Bool × Json :=
+    let host := getS rq "host"
+    let target := getS rq "target"
+    let xfp := getS rq "xfp"
+    let aerr := (a.getObjValAs? String "err").toOption.getD ""
+    match (if targetOK target then parseTarget host target else none) with
+    | none => (aerr == "request", true, Json.mkObj [("err", "request")])
+    | some req =>
+      if aerr != "" || (a.getObjValAs? String "panic").isOk || host.isEmpty then (aerr == "" && host.isEmpty, host.isEmpty, Json.null) else
+      let status := getI a "status"
+      let iloc := getS a "location"
+      match answer (reqScheme xfp false) req [some t] with
+      | some (code, loc) =>
+        (status == code && iloc == loc,
+         status == t.code && locationSpec t host (escapedPath req) (rawPathOf target) req.rawQuery iloc,
+         Json.mkObj [("status", code), ("location", showB loc)])
+      | none =>
+        -- the redirect would point at the request itself: skipped, no other route, no-route answer
+        (status == 404 && !getB a "hasloc", !is3xx status, Json.mkObj [("status", 404)])
+  let rs := (reqs.zip answ).map (fun (rq, a) => judge rq a)
+  let lenOK := reqs.length == answ.length || reqs.length > 64
+  let hostsSeen := (reqs.map (fun rq => getS rq "host")).eraseDups
+  let failing := findingClasses.filter (fun c => reqs.any (fun rq =>
+      match parseTarget (getS rq "host") (getS rq "target") with
+      | some req => classTag t req == c
+      | none => false))
+  -- a Location that is the request's own URL although the comparison in Lookup did not see it (finding D18d)
+  let ownAnswered := (reqs.zip answ).any (fun (rq, a) =>
+      match parseTarget (getS rq "host") (getS rq "target"), parseLoc (getS a "location") with
+      | some req, some l => l.scheme == reqScheme (getS rq "xfp") false && l.host == hexEscapeNonASCII (escape .host req.host) &&
+          unescape l.path == some req.path
+      | _, _ => false)
+  let tag := match failing with
+    | c :: _ => c
+    | [] => if ownAnswered then "self-redirect-answered" else formTag t ++ (if contains vHost t.url.host then "-hostvar" else "") ++ (if hostsSeen.length ≥ 2 then "-hosts" else "")
+  return ({ model := Json.arr (rs.map (·.2.2)).toArray, agree := lenOK && rs.all (·.1), spec := lenOK && rs.all (·.2.1),
+            nontrivial := reqs.length ≥ 2 && hostsSeen.length ≥ 2, tag := tag } : Verdict).toJson
+
 def streams : List (String × Handler) :=
-  [("c13.build", buildH), ("c13.url", urlH), ("c13.http", httpH), ("c13.concurrent", concH)]
+  [("c13.build", buildH), ("c13.url", urlH), ("c13.http", httpH), ("c13.concurrent", concH), ("c13.sequence", seqH)]
 end Fabio.Driver.C13
